@@ -32,6 +32,7 @@
 #include <string>
 #include <sys/resource.h>
 #include <sys/time.h>
+#include <time.h>
 #include <unistd.h>
 #include <unordered_set>
 #include <vector>
